@@ -121,6 +121,11 @@ def r2_cascade(ctx: Context) -> None:
         for attr, kind in sorted(comps.items()):
             public = attr.lstrip("_")
             key = f"{c.name}._set_random_state:{attr}"
+            if srs.cls is c and not _mentions(srs, attr) and _inherited_definition_seeds(prog, c, seedable, attr):
+                # an override that only adds to the inherited cascade (`super()._set_random_state(seed)` - order and argument are R3's business):
+                # the component is seeded by the ancestor's definition, which is checked on the ancestor
+                ctx.ok("R2.cascade", key, f"{c.name} re-seeds {attr} through the inherited definition it calls")
+                continue
             if kind == "seq":
                 loops = [s for s in walk_scope(srs.node) if isinstance(s, ast.For) and src(s.iter) in (f"self.{attr}", f"self.{public}")]
                 if not loops and srs.cls is not c:
@@ -153,6 +158,31 @@ def r2_cascade(ctx: Context) -> None:
                 ok = len(calls) == 1 and _is_fresh_draw(srs, kwarg(calls[0], "seed"))
                 ctx.check(ok, "R2.cascade", key, f"{attr} is reset with a fresh seed", f"{attr} is reset by `{src(calls[0]) if calls else 'nothing'}`", srs, calls[0] if calls else srs.node)
     ctx.floor("R2", "owners of seedable components", owners, 2)
+
+
+def _mentions(f, attr: str) -> bool:
+    public = attr.lstrip("_")
+    return any(isinstance(x, ast.Attribute) and x.attr in (attr, public) and isinstance(x.value, ast.Name) and x.value.id == f.self_name for x in ast.walk(f.node))
+
+
+def _calls_super_srs(f) -> bool:
+    return any(isinstance(cl.func, ast.Attribute) and cl.func.attr == "_set_random_state" and isinstance(cl.func.value, ast.Call) and (dotted(cl.func.value.func) or "") == "super"
+               for cl in calls_in(f.node))
+
+
+def _inherited_definition_seeds(prog, c, seedable, attr: str) -> bool:
+    """Walking up from `c`: every _set_random_state on the way calls super()._set_random_state, until a definition that mentions the component."""
+    for k in prog.mro(c):
+        m = k.methods.get("_set_random_state")
+        if m is None:
+            continue
+        if k is seedable:
+            return False
+        if k is not c and _mentions(m, attr):
+            return True
+        if not _calls_super_srs(m):
+            return False
+    return False
 
 
 def r3_super_first(ctx: Context) -> None:
@@ -444,10 +474,45 @@ INERT_CALLS = {"print", "numpy.round", "numpy.min", "numpy.max", "numpy.average"
 INERT_METHODS = {"join", "format", "append", "extend", "ljust", "rjust", "center", "strip", "upper", "lower", "title", "splitlines", "split", "replace", "item", "tolist"}
 
 
+LOG_METHODS = {"debug", "info", "warning", "warn", "error", "critical", "exception", "log", "isEnabledFor", "getEffectiveLevel"}
+
+
+def _is_logger(prog, f: FuncInfo, e: ast.expr) -> bool:
+    """`e` is the stdlib logging module or a module-level name bound to logging.getLogger(...): writing to it is output, like print."""
+    d = dotted(e)
+    if d is None:
+        if isinstance(e, ast.Call):
+            return (prog.qualify(f.module, dotted(e.func) or "") or "") == "logging.getLogger"
+        return False
+    if (prog.qualify(f.module, d) or "") == "logging":
+        return True
+    if isinstance(e, ast.Name):
+        for mod in (f.module,):
+            for st in mod.tree.body:
+                if isinstance(st, (ast.Assign, ast.AnnAssign)) and st.value is not None and isinstance(st.value, ast.Call) \
+                        and (prog.qualify(mod, dotted(st.value.func) or "") or "") == "logging.getLogger":
+                    tg = st.targets[0] if isinstance(st, ast.Assign) else st.target
+                    if isinstance(tg, ast.Name) and tg.id == e.id:
+                        return True
+        # a logger imported from another module of the package
+        q = prog.qualify(f.module, e.id) or ""
+        if "." in q:
+            mname, nm = q.rsplit(".", 1)
+            other = prog.modules.get(mname) if hasattr(prog, "modules") else None
+            if other is not None:
+                for st in other.tree.body:
+                    if isinstance(st, ast.Assign) and isinstance(st.value, ast.Call) and (prog.qualify(other, dotted(st.value.func) or "") or "") == "logging.getLogger" \
+                            and isinstance(st.targets[0], ast.Name) and st.targets[0].id == nm:
+                        return True
+    return False
+
+
 def _inert_call(prog, f: FuncInfo, x: ast.Call) -> bool:
     d = dotted(x.func)
     q = prog.qualify(f.module, d) if d else None
     if q in INERT_CALLS:
+        return True
+    if isinstance(x.func, ast.Attribute) and x.func.attr in LOG_METHODS and _is_logger(prog, f, x.func.value):
         return True
     if isinstance(x.func, ast.Attribute) and x.func.attr in INERT_METHODS:
         r = x.func.value
@@ -479,6 +544,18 @@ def _is_inert(prog, f: FuncInfo, node) -> tuple[bool, str]:
         if not isinstance(tg, ast.Name):
             return False, f"store `{src(a)[:50]}`"
     return True, ""
+
+
+def _inert_stmt(prog, f: FuncInfo, st: ast.stmt) -> bool:
+    """A statement that only produces output: print / logging calls, possibly under tests (`if message: print(message)`)."""
+    if isinstance(st, ast.Pass):
+        return True
+    if isinstance(st, ast.Expr):
+        return all(_inert_call(prog, f, x) for x in ast.walk(st.value) if isinstance(x, ast.Call)) and not any(isinstance(x, (ast.Yield, ast.YieldFrom, ast.Await, ast.NamedExpr)) for x in ast.walk(st.value))
+    if isinstance(st, ast.If):
+        return all(_inert_call(prog, f, x) for x in ast.walk(st.test) if isinstance(x, ast.Call)) and not any(isinstance(x, ast.NamedExpr) for x in ast.walk(st.test)) \
+            and all(_inert_stmt(prog, f, b) for b in [*st.body, *st.orelse])
+    return False
 
 
 def r7_non_interference(ctx: Context, v: CalibrateView) -> None:
@@ -551,7 +628,8 @@ def r7_non_interference(ctx: Context, v: CalibrateView) -> None:
                     sink = cur
                 cur = getattr(cur, "_parent", None)
             stmt = cur
-            ok = sink is None and (isinstance(stmt, ast.Expr) or (isinstance(stmt, ast.Assign) and isinstance(stmt.targets[0], ast.Name) and stmt.targets[0].id in tainted))
+            ok = sink is None and (isinstance(stmt, ast.Expr) or (isinstance(stmt, ast.Assign) and isinstance(stmt.targets[0], ast.Name) and stmt.targets[0].id in tainted)
+                                   or (isinstance(stmt, ast.If) and _inert_stmt(prog, cal, stmt)))
             ctx.check(ok, "R7.clock", f"Calibrator.calibrate:clock:{x.id}", f"wall-clock value `{x.id}` reaches only prints",
                       f"wall-clock value `{x.id}` flows into `{src(stmt)[:60] if stmt is not None else '?'}`: the run depends on timing", cal, stmt or x)
     # n_jobs: only the Parallel argument and the checkpoint
@@ -562,7 +640,7 @@ def r7_non_interference(ctx: Context, v: CalibrateView) -> None:
             if is_self_attr(x, f.self_name, "n_jobs") and isinstance(getattr(x, "ctx", None), ast.Load):
                 par = getattr(x, "_parent", None)
                 ok = (isinstance(par, ast.keyword) and par.arg == "n_jobs") or (isinstance(par, ast.Call) and any(isinstance(t, FuncInfo) and t.name == "save_calibrator_state" for t in prog.resolve_call(f, par))) \
-                    or isinstance(par, (ast.JoinedStr, ast.FormattedValue))
+                    or isinstance(par, (ast.JoinedStr, ast.FormattedValue)) or (isinstance(par, ast.Call) and _inert_call(prog, f, par))
                 # inside create_checkpoint (or a private helper of it) every read is the persisted copy: that function is separately shown to write no
                 # calibrator state and to draw nothing, so however the value travels to the save call it cannot reach the run
                 ok = ok or prog.only_reached_from(f, {"black_it.calibrator:Calibrator.create_checkpoint"})
